@@ -1,6 +1,7 @@
 import Proofs.C14Prepare
 import Proofs.C14Conn
 import Proofs.C14Obs
+import Proofs.C14Live
 /-!
 # C14 — prepared statements (property theorems; sequential + logical core, and the session tier)
 
@@ -190,24 +191,24 @@ scripted server (any answers), capacity evictions at any time. A schedule is any
 `PConn.step`; its trace is the list of observable events (`Ev`). `Obs` is the observable-level
 specification that also judges the histories recorded on real Sessions (op `trace`). -/
 section Conn
-open PConn Obs C14Conn C14Obs
-variable {κ : Type} [DecidableEq κ]
+open PConn Obs C14Conn C14Obs C14Live
+variable {κ : Type} [DecidableEq κ] {b : Bool}
 
 /-- **Every schedule is accepted by the specification** — in particular no schedule contains a `crash`
     (nil dereference in evictPreparedID) and every enabledness condition of `Obs` (the clauses below) holds
     at every event of every schedule. -/
 theorem C14_conn_refines (as : List (PConn.Action κ)) (s : PConn.State κ) (tr : List (Ev κ))
-    (h : PConn.run PConn.init as = some (s, tr)) : ∃ o, Obs.run Obs.init tr = some o := by
+    (h : PConn.run (PConn.initB b) as = some (s, tr)) : ∃ o, Obs.run (Obs.initB b) tr = some o := by
   obtain ⟨o, h1, _, _⟩ := reachable h
   exact ⟨o, h1⟩
 
 /-- state of the specification just before an event of a schedule's trace -/
 theorem before_event {as : List (PConn.Action κ)} {s : PConn.State κ} {pre post : List (Ev κ)} {e : Ev κ}
-    (h : PConn.run PConn.init as = some (s, pre ++ e :: post)) :
-    ∃ o1 o2, Obs.run Obs.init pre = some o1 ∧ Hist pre o1 ∧ Obs.step o1 e = some o2 := by
+    (h : PConn.run (PConn.initB b) as = some (s, pre ++ e :: post)) :
+    ∃ o1 o2, Obs.run (Obs.initB b) pre = some o1 ∧ Hist pre o1 ∧ Obs.step o1 e = some o2 := by
   obtain ⟨o, ho⟩ := C14_conn_refines as s _ h
-  obtain ⟨o1, o2, h1, h2⟩ := run_split Obs.init pre e post o ho
-  have hH := hist_run pre [] Obs.init o1 hist_init h1
+  obtain ⟨o1, o2, h1, h2⟩ := run_split (Obs.initB b) pre e post o ho
+  have hH := hist_run pre [] (Obs.initB b) o1 (hist_init b) h1
   exact ⟨o1, o2, h1, by simpa using hH, h2⟩
 
 /-- **Ids belong to the statement (and are not superseded).** Whenever, in any schedule, the server receives
@@ -216,7 +217,7 @@ theorem before_event {as : List (PConn.Action κ)} {s : PConn.State κ} {pre pos
     keyspace, statement), with as many bind columns as that entry has bound values (`e.2`), by a flight that
     had not left the cache when the call started / sent its previous frame. -/
 theorem C14_id_belongs (as : List (PConn.Action κ)) (s : PConn.State κ) (pre post : List (Ev κ)) (c : Nat) (ids : List Id) (a : XAns)
-    (h : PConn.run PConn.init as = some (s, pre ++ Ev.exec c ids a :: post)) :
+    (h : PConn.run (PConn.initB b) as = some (s, pre ++ Ev.exec c ids a :: post)) :
     ∃ b es, Ev.start c b es ∈ pre ∧ ids.length = es.length ∧
       ∀ (j : Nat) (e : κ × Nat) (id : Id), es[j]? = some e → ids[j]? = some id →
         ∃ f, Ev.prep f e.1 (some (id, e.2)) ∈ pre ∧ removedBefore pre c f = false := by
@@ -226,27 +227,33 @@ theorem C14_id_belongs (as : List (PConn.Action κ)) (s : PConn.State κ) (pre p
   | none => simp [hc] at hs
   | some cl =>
     simp only [hc] at hs
-    by_cases hk : cl.pc.live = true ∧ okEntries o1 cl.banned cl.entries ids = true
-    · obtain ⟨b, hb⟩ := hH.start c cl hc
-      obtain ⟨hl, hall⟩ := okEntries_sound hH cl.banned cl.entries ids hk.2
-      refine ⟨b, cl.entries, hb, hl, ?_⟩
-      intro j e id he hid
-      obtain ⟨f, h1, h2⟩ := hall j e id he hid
-      refine ⟨f, h1, ?_⟩
-      unfold removedBefore
-      rw [← hH.ban c cl hc]; exact h2
-    · rw [if_neg hk] at hs; cases hs
+    -- a frame of a running call, or the one frame a call that gave up on its context had already written
+    have hk : okEntries o1 cl.banned cl.entries ids = true := by
+      by_cases hk1 : cl.pc.live = true ∧ okEntries o1 cl.banned cl.entries ids = true
+      · exact hk1.2
+      · rw [if_neg hk1] at hs
+        by_cases hk2 : cl.pc = .abandoned true ∧ okEntries o1 cl.banned cl.entries ids = true
+        · exact hk2.2
+        · rw [if_neg hk2] at hs; cases hs
+    obtain ⟨b, hb⟩ := hH.start c cl hc
+    obtain ⟨hl, hall⟩ := okEntries_sound hH cl.banned cl.entries ids hk
+    refine ⟨b, cl.entries, hb, hl, ?_⟩
+    intro j e id he hid
+    obtain ⟨f, h1, h2⟩ := hall j e id he hid
+    refine ⟨f, h1, ?_⟩
+    unfold removedBefore
+    rw [← hH.ban c cl hc]; exact h2
 
 /-- **Single flight on connections.** In every schedule and at every point of it, the number of PREPAREs the
     server has received for a key is at most one more than the number of times an entry of that key left the
     cache (capacity eviction, failed PREPARE, UNPREPARED): with no removal, one PREPARE however many
     executors there are. -/
 theorem C14_single_flight_conn (as : List (PConn.Action κ)) (s : PConn.State κ) (pre post : List (Ev κ))
-    (h : PConn.run PConn.init as = some (s, pre ++ post)) (k : κ) :
+    (h : PConn.run (PConn.initB b) as = some (s, pre ++ post)) (k : κ) :
     prepCount k pre ≤ rmCount k pre + 1 := by
-  have key : ∀ o1, Obs.run Obs.init pre = some o1 → prepCount k pre ≤ rmCount k pre + 1 := by
+  have key : ∀ o1, Obs.run (Obs.initB b) pre = some o1 → prepCount k pre ≤ rmCount k pre + 1 := by
     intro o1 h1
-    have hH := hist_run pre [] Obs.init o1 hist_init h1
+    have hH := hist_run pre [] (Obs.initB b) o1 (hist_init b) h1
     have := (show Hist pre o1 by simpa using hH).credit k
     omega
   cases post with
@@ -263,7 +270,7 @@ theorem C14_single_flight_conn (as : List (PConn.Action κ)) (s : PConn.State κ
     left the cache when the call started / sent its previous frame (the failure is never served to an
     execution that began after it was known). -/
 theorem C14_failure_not_cached_conn (as : List (PConn.Action κ)) (s : PConn.State κ) (pre post : List (Ev κ)) (c f : Nat)
-    (h : PConn.run PConn.init as = some (s, pre ++ Ev.ret c (.prepErr f) :: post)) :
+    (h : PConn.run (PConn.initB b) as = some (s, pre ++ Ev.ret c (.prepErr f) :: post)) :
     ∃ k b es, Ev.start c b es ∈ pre ∧ hasKey es k = true ∧ Ev.prep f k none ∈ pre ∧ Ev.rm k f ∈ pre ∧
       removedBefore pre c f = false := by
   obtain ⟨o1, o2, _, hH, hs⟩ := before_event h
@@ -290,17 +297,17 @@ theorem C14_failure_not_cached_conn (as : List (PConn.Action κ)) (s : PConn.Sta
     ever given that failure — the next execution prepares again. -/
 theorem C14_failure_not_served_later (as : List (PConn.Action κ)) (s : PConn.State κ) (p1 p2 post : List (Ev κ)) (c c' f : Nat)
     (b : Bool) (es : List (κ × Nat))
-    (h : PConn.run PConn.init as = some (s, p1 ++ Ev.start c b es :: (p2 ++ Ev.ret c (.prepErr f) :: post))) :
+    (h : PConn.run (PConn.initB b) as = some (s, p1 ++ Ev.start c b es :: (p2 ++ Ev.ret c (.prepErr f) :: post))) :
     Ev.ret c' (.prepErr f) ∉ p1 := by
   intro hmem
   -- the earlier report: f had left the cache before it
   obtain ⟨q1, q2, hq⟩ := List.append_of_mem hmem
-  have h1 : PConn.run PConn.init as = some (s, q1 ++ Ev.ret c' (.prepErr f) :: (q2 ++ Ev.start c b es :: (p2 ++ Ev.ret c (.prepErr f) :: post))) := by
+  have h1 : PConn.run (PConn.initB b) as = some (s, q1 ++ Ev.ret c' (.prepErr f) :: (q2 ++ Ev.start c b es :: (p2 ++ Ev.ret c (.prepErr f) :: post))) := by
     rw [h, hq]; simp
   obtain ⟨k, _, _, _, _, _, hrm, _⟩ := C14_failure_not_cached_conn as s _ _ c' f h1
   have hrm1 : Ev.rm k f ∈ p1 := by rw [hq]; exact List.mem_append_left _ hrm
   -- the later report
-  have h2 : PConn.run PConn.init as = some (s, (p1 ++ Ev.start c b es :: p2) ++ Ev.ret c (.prepErr f) :: post) := by
+  have h2 : PConn.run (PConn.initB b) as = some (s, (p1 ++ Ev.start c b es :: p2) ++ Ev.ret c (.prepErr f) :: post) := by
     rw [h]; simp
   obtain ⟨_, _, _, _, _, _, _, hnb⟩ := C14_failure_not_cached_conn as s _ _ c f h2
   rw [removedBefore_of_rm_before_start p1 p2 c f k b es hrm1] at hnb
@@ -309,7 +316,7 @@ theorem C14_failure_not_served_later (as : List (PConn.Action κ)) (s : PConn.St
 /-- **Value count.** A call returns the value-count error only if one of its entries has a different number
     of bound values than the bind columns of a PREPARE answer for that entry's statement … -/
 theorem C14_value_count (as : List (PConn.Action κ)) (s : PConn.State κ) (pre post : List (Ev κ)) (c : Nat)
-    (h : PConn.run PConn.init as = some (s, pre ++ Ev.ret c .countErr :: post)) :
+    (h : PConn.run (PConn.initB b) as = some (s, pre ++ Ev.ret c .countErr :: post)) :
     ∃ b es e f id nc, Ev.start c b es ∈ pre ∧ e ∈ es ∧ Ev.prep f e.1 (some (id, nc)) ∈ pre ∧ nc ≠ e.2 := by
   obtain ⟨o1, o2, _, hH, hs⟩ := before_event h
   simp only [Obs.step] at hs
@@ -353,95 +360,136 @@ theorem C14_value_count_step (s : PConn.State κ) (c f : Nat) (cl : Caller κ) (
   rw [if_pos hne]
   exact ⟨_, rfl⟩
 
-/-- **A call that returned sends nothing more** (no frame, no second result). -/
-theorem C14_nothing_after_return (as : List (PConn.Action κ)) (s : PConn.State κ) (pre post : List (Ev κ)) (c : Nat) (out : Outcome)
-    (h : PConn.run PConn.init as = some (s, pre ++ Ev.ret c out :: post)) :
-    ∀ e ∈ post, (∀ ids a, e ≠ Ev.exec c ids a) ∧ (∀ out', e ≠ Ev.ret c out') := by
-  obtain ⟨o, ho⟩ := C14_conn_refines as s _ h
-  obtain ⟨o1, o2, h1, h2⟩ := run_split Obs.init pre (Ev.ret c out) post o ho
-  -- the rest of the run from o2
-  have hrest : Obs.run o2 post = some o := by
-    have : ∀ (xs : List (Ev κ)) (oa ob : OState κ), Obs.run oa xs = some ob →
-        ∀ oc, Obs.run oa (xs ++ Ev.ret c out :: post) = some oc →
-        ∀ od, Obs.step ob (Ev.ret c out) = some od → Obs.run od post = some oc := by
-      intro xs
-      induction xs with
-      | nil =>
-        intro oa ob hab oc hac od hbd
-        simp only [Obs.run] at hab; injection hab with hab; subst hab
-        simp only [List.nil_append, Obs.run, hbd] at hac
-        exact hac
-      | cons x xs ih =>
-        intro oa ob hab oc hac od hbd
-        simp only [Obs.run, List.cons_append] at hab hac
-        cases hs : Obs.step oa x with
-        | none => simp [hs] at hab
-        | some o' =>
-          simp only [hs] at hab hac
-          exact ih o' ob hab oc hac od hbd
-    exact this pre Obs.init o1 h1 o ho o2 h2
-  -- after the return the record of c says `returned`
-  have hret : ∃ cl, o2.callers[c]? = some cl ∧ cl.pc = .returned := by
-    simp only [Obs.step] at h2
-    cases hc : o1.callers[c]? with
-    | none => simp [hc] at h2
-    | some cl =>
-      have hlt : c < o1.callers.length := (List.getElem?_eq_some_iff.1 hc).1
-      have hset : ∀ pc, (setPc o1 c cl pc).callers[c]? = some { cl with pc := pc } := by
-        intro pc; unfold setPc; simp [hlt]
-      simp only [hc] at h2
-      cases out with
-      | ok =>
-        simp only [] at h2
-        split at h2
-        · injection h2 with h2; subst h2; exact ⟨_, hset _, rfl⟩
-        · cases h2
-      | execErr =>
-        simp only [] at h2
-        split at h2
-        · injection h2 with h2; subst h2; exact ⟨_, hset _, rfl⟩
-        · cases h2
-      | prepErr f =>
-        simp only [] at h2
-        split at h2
+/-- the specification's state after the rest of an accepted trace -/
+theorem rest_run (pre : List (Ev κ)) (e : Ev κ) (post : List (Ev κ)) (oa ob oc od : OState κ)
+    (hab : Obs.run oa pre = some ob) (hac : Obs.run oa (pre ++ e :: post) = some oc) (hbd : Obs.step ob e = some od) :
+    Obs.run od post = some oc := by
+  induction pre generalizing oa with
+  | nil =>
+    simp only [Obs.run] at hab; injection hab with hab; subst hab
+    simp only [List.nil_append, Obs.run, hbd] at hac
+    exact hac
+  | cons x xs ih =>
+    simp only [Obs.run, List.cons_append] at hab hac
+    cases hs : Obs.step oa x with
+    | none => simp [hs] at hab
+    | some o' =>
+      simp only [hs] at hab hac
+      exact ih o' hab hac
+
+/-- the record of call c right after it returned -/
+theorem after_return {o1 o2 : OState κ} {c : Nat} {out : Outcome} (h2 : Obs.step o1 (Ev.ret c out) = some o2) :
+    ∃ cl, o2.callers[c]? = some cl ∧ cl.pc.running = false ∧ (out ≠ .ctxErr → cl.pc ≠ .abandoned true) := by
+  simp only [Obs.step] at h2
+  cases hc : o1.callers[c]? with
+  | none => simp [hc] at h2
+  | some cl =>
+    have hlt : c < o1.callers.length := (List.getElem?_eq_some_iff.1 hc).1
+    have hset : ∀ pc, (setPc o1 c cl pc).callers[c]? = some { cl with pc := pc } := by
+      intro pc; unfold setPc; simp [hlt]
+    simp only [hc] at h2
+    cases out with
+    | ok =>
+      simp only [] at h2
+      split at h2
+      · injection h2 with h2; subst h2; exact ⟨_, hset _, rfl, fun _ => by simp⟩
+      · cases h2
+    | execErr =>
+      simp only [] at h2
+      split at h2
+      · injection h2 with h2; subst h2; exact ⟨_, hset _, rfl, fun _ => by simp⟩
+      · cases h2
+    | prepErr f =>
+      simp only [] at h2
+      split at h2
+      · split at h2
         · split at h2
-          · split at h2
-            · injection h2 with h2; subst h2; exact ⟨_, hset _, rfl⟩
-            · cases h2
+          · injection h2 with h2; subst h2; exact ⟨_, hset _, rfl, fun _ => by simp⟩
           · cases h2
         · cases h2
-      | countErr =>
-        simp only [] at h2
-        split at h2
-        · injection h2 with h2; subst h2; exact ⟨_, hset _, rfl⟩
-        · cases h2
-  obtain ⟨cl, g1, g2⟩ := hret
-  exact returned_stays c post o2 o cl hrest g1 g2
+      · cases h2
+    | countErr =>
+      simp only [] at h2
+      split at h2
+      · injection h2 with h2; subst h2; exact ⟨_, hset _, rfl, fun _ => by simp⟩
+      · cases h2
+    | ctxErr =>
+      simp only [] at h2
+      split at h2
+      · injection h2 with h2; subst h2; exact ⟨_, hset _, rfl, fun h => absurd rfl h⟩
+      · cases h2
+
+/-- **A call that returned sends nothing more**: no second result ever; no frame — except that a call which
+    returned its CONTEXT error may have written one frame just before its context fired, which then reaches the
+    server after the return (`C14_late_frame_once`: at most one). -/
+theorem C14_nothing_after_return (as : List (PConn.Action κ)) (s : PConn.State κ) (pre post : List (Ev κ)) (c : Nat) (out : Outcome)
+    (h : PConn.run (PConn.initB b) as = some (s, pre ++ Ev.ret c out :: post)) :
+    ∀ e ∈ post, (∀ out', e ≠ Ev.ret c out') ∧ (out ≠ .ctxErr → ∀ ids a, e ≠ Ev.exec c ids a) := by
+  obtain ⟨o, ho⟩ := C14_conn_refines as s _ h
+  obtain ⟨o1, o2, h1, h2⟩ := run_split (Obs.initB b) pre (Ev.ret c out) post o ho
+  have hrest : Obs.run o2 post = some o := rest_run pre _ post (Obs.initB b) o1 o o2 h1 ho h2
+  obtain ⟨cl, g1, g2, g3⟩ := after_return h2
+  intro e he
+  have := finished_stays c post o2 o cl hrest g1 g2 e he
+  exact ⟨this.1, fun hne => this.2 (g3 hne)⟩
+
+/-- after a call returned (whatever it returned) the server receives at most ONE more frame of it -/
+theorem C14_late_frame_once (as : List (PConn.Action κ)) (s : PConn.State κ) (pre p1 p2 : List (Ev κ)) (c : Nat) (out : Outcome)
+    (ids : List Id) (a : XAns)
+    (h : PConn.run (PConn.initB b) as = some (s, pre ++ Ev.ret c out :: (p1 ++ Ev.exec c ids a :: p2))) :
+    ∀ e ∈ p2, ∀ ids' a', e ≠ Ev.exec c ids' a' := by
+  obtain ⟨o, ho⟩ := C14_conn_refines as s _ h
+  obtain ⟨o1, o2, h1, h2⟩ := run_split (Obs.initB b) pre (Ev.ret c out) _ o ho
+  have hrest := rest_run pre _ _ (Obs.initB b) o1 o o2 h1 ho h2
+  obtain ⟨cl, g1, g2, _⟩ := after_return h2
+  exact late_frame_once c _ o2 o cl hrest g1 g2 p1 p2 ids a rfl
+
+/-- **A context error is returned only to a call whose own context is done**: whenever a call returns
+    `context.Canceled` / `DeadlineExceeded`, that call was started and ITS context had become done before —
+    never because of some other caller's context (the PREPARE runs on the connection's context). -/
+theorem C14_ctx_error_only_if_cancelled (as : List (PConn.Action κ)) (s : PConn.State κ) (pre post : List (Ev κ)) (c : Nat)
+    (h : PConn.run (PConn.initB b) as = some (s, pre ++ Ev.ret c .ctxErr :: post)) :
+    Ev.cancel c ∈ pre ∧ ∃ b es, Ev.start c b es ∈ pre := by
+  obtain ⟨o1, o2, _, hH, hs⟩ := before_event h
+  simp only [Obs.step] at hs
+  cases hc : o1.callers[c]? with
+  | none => simp [hc] at hs
+  | some cl =>
+    simp only [hc] at hs
+    by_cases hp : o1.cancelled c = true ∧ cl.pc.running = true
+    · obtain ⟨b, hb⟩ := hH.start c cl hc
+      exact ⟨hH.canc c hp.1, b, cl.entries, hb⟩
+    · rw [if_neg hp] at hs; cases hs
 
 /-- **No schedule crashes** (the nil dereference in evictPreparedID is unreachable). -/
 theorem C14_no_crash (as : List (PConn.Action κ)) (s : PConn.State κ) (tr : List (Ev κ))
-    (h : PConn.run PConn.init as = some (s, tr)) : Ev.crash ∉ tr := by
+    (h : PConn.run (PConn.initB b) as = some (s, tr)) : Ev.crash ∉ tr := by
   intro hmem
   obtain ⟨q1, q2, hq⟩ := List.append_of_mem hmem
   rw [hq] at h
   obtain ⟨o1, o2, _, _, hs⟩ := before_event h
   simp [Obs.step] at hs
 
-/-- **No execution is ever stuck** (what makes a `hang` — watchdog expiry with every frame answered and a
-    goroutine blocked inside gocql — a violation): in every reachable state, for every call that has not
-    returned, the driver's next action of that call is enabled, or it waits for a flight whose own next
-    action (the server's answer to the PREPARE, then the completion by the flight's goroutine) is enabled. -/
+/-- **No execution is ever stuck, with caller contexts** (what makes a `hang` — watchdog expiry with every frame
+    answered and a goroutine blocked inside gocql — a violation): in every reachable state of every schedule —
+    cancellations of any callers at any points included — for every call that has not returned, the driver's next
+    action of that call is enabled (lookup; start the goroutine of the flight it published; observe the finished
+    flight; act on the answer to its frame), or it waits for a flight whose own next action is enabled: the
+    publishing caller g starting the flight's goroutine, the server's answer to the PREPARE, the completion by the
+    flight's goroutine. Whether the caller's own context is done plays no role. -/
 theorem C14_no_caller_stuck (as : List (PConn.Action κ)) (s : PConn.State κ) (tr : List (Ev κ))
-    (h : PConn.run PConn.init as = some (s, tr)) (c : Nat) (cl : Caller κ) (hc : s.callers[c]? = some cl)
-    (hp : cl.pc ≠ .returned) :
+    (h : PConn.run (PConn.initB b) as = some (s, tr)) (c : Nat) (cl : Caller κ) (hc : s.callers[c]? = some cl)
+    (hp : cl.pc ≠ .returned ∧ cl.pc ≠ .abandoned ∧ cl.pc ≠ .lagging) :
     ∃ a, (PConn.step s a).isSome = true ∧
-      (a = .lookup c ∨ a = .observe c .ok ∨ a = .finish c ∨
-        ∃ f, cl.pc = .waiting f ∧ (a = .srvPrepare f none ∨ a = .complete f)) := by
+      (a = .lookup c ∨ a = .spawn c ∨ a = .observe c .ok ∨ a = .finish c ∨
+        ∃ f, cl.pc = .waiting f ∧ ((∃ g, a = .spawn g) ∨ a = .srvPrepare f none ∨ a = .complete f)) := by
   obtain ⟨_, _, hI, _⟩ := reachable h
   have hok := hI.callers c cl hc
   have hpcs := hok.pcs
   cases hpc : cl.pc with
-  | returned => exact absurd hpc hp
+  | returned => exact absurd hpc hp.1
+  | abandoned => exact absurd hpc hp.2.1
+  | lagging => exact absurd hpc hp.2.2
   | start =>
     rw [hpc] at hpcs
     have hlt := hpcs.1
@@ -449,8 +497,13 @@ theorem C14_no_caller_stuck (as : List (PConn.Action κ)) (s : PConn.State κ) (
     have he : cl.entries[cl.got.length]? = some cl.entries[cl.got.length] := by simp [hlt]
     simp only [PConn.step, hc, hpc, if_true, he]
     cases s.cache (cl.entries[cl.got.length]).1 <;> rfl
+  | won f =>
+    rw [hpc] at hpcs
+    obtain ⟨_, _, fl, e, hf, _, _, _⟩ := hpcs
+    refine ⟨.spawn c, ?_, Or.inr (Or.inl rfl)⟩
+    simp [PConn.step, hc, hpc, hf]
   | answered a =>
-    refine ⟨.finish c, ?_, Or.inr (Or.inr (Or.inl rfl))⟩
+    refine ⟨.finish c, ?_, Or.inr (Or.inr (Or.inr (Or.inl rfl)))⟩
     simp only [PConn.step, hc, hpc]
     cases a <;> rfl
   | waiting f =>
@@ -458,11 +511,17 @@ theorem C14_no_caller_stuck (as : List (PConn.Action κ)) (s : PConn.State κ) (
     obtain ⟨hlt, _, fl, e, hf, he, _, _⟩ := hpcs
     cases ha : fl.ans with
     | none =>
-      refine ⟨.srvPrepare f none, ?_, Or.inr (Or.inr (Or.inr ⟨f, rfl, Or.inl rfl⟩))⟩
-      simp [PConn.step, hf, ha]
+      cases hsp : fl.spawned with
+      | false =>
+        obtain ⟨g, gl, hg, hgp⟩ := hI.unspawned f fl hf hsp
+        refine ⟨.spawn g, ?_, Or.inr (Or.inr (Or.inr (Or.inr ⟨f, rfl, Or.inl ⟨g, rfl⟩⟩)))⟩
+        simp [PConn.step, hg, hgp, hf]
+      | true =>
+        refine ⟨.srvPrepare f none, ?_, Or.inr (Or.inr (Or.inr (Or.inr ⟨f, rfl, Or.inr (Or.inl rfl)⟩)))⟩
+        simp [PConn.step, hf, ha, hsp]
     | some r =>
       by_cases hd : fl.done = true
-      · refine ⟨.observe c .ok, ?_, Or.inr (Or.inl rfl)⟩
+      · refine ⟨.observe c .ok, ?_, Or.inr (Or.inr (Or.inl rfl))⟩
         simp only [PConn.step, hc, hpc, hf, he, hd, if_true, ha]
         cases r with
         | none => rfl
@@ -472,17 +531,161 @@ theorem C14_no_caller_stuck (as : List (PConn.Action κ)) (s : PConn.State κ) (
           split
           · rfl
           · split <;> rfl
-      · refine ⟨.complete f, ?_, Or.inr (Or.inr (Or.inr ⟨f, rfl, Or.inr rfl⟩))⟩
+      · refine ⟨.complete f, ?_, Or.inr (Or.inr (Or.inr (Or.inr ⟨f, rfl, Or.inr (Or.inr rfl)⟩)))⟩
         simp only [PConn.step, hf, ha]
         rw [if_neg hd]
         cases r <;> rfl
+
+/-- **No orphan flight.** In every reachable state of every schedule (any callers cancelled at any points), every
+    flight that is not done — whether its entry is still cached or not — has an agent whose next step on it is
+    enabled: (1) its goroutine has not been started yet: the caller g that published it is still inside
+    `prepareStatement` (pc `won`; from there it can do nothing but start the goroutine, see
+    `C14_winner_cannot_leave`); (2) started, PREPARE not yet at the server: the server can receive it — it was sent
+    on the CONNECTION's context, whatever became of the publishing caller; (3) answered: the flight's goroutine
+    completes it (on failure removing the key first). So an in-flight entry is never left to nobody: it is completed
+    (and, if it failed, removed) — every later execution that finds it gets its outcome (`C14_no_caller_stuck`). -/
+theorem C14_no_orphan_flight (as : List (PConn.Action κ)) (s : PConn.State κ) (tr : List (Ev κ))
+    (h : PConn.run (PConn.initB b) as = some (s, tr)) (f : Nat) (fl : PConn.Flight κ) (hf : s.flights[f]? = some fl)
+    (hd : fl.done = false) :
+    (fl.spawned = false ∧ ∃ g gl, s.callers[g]? = some gl ∧ gl.pc = .won f ∧ (PConn.step s (.spawn g)).isSome = true) ∨
+    (fl.spawned = true ∧ fl.ans = none ∧ ∀ r, (PConn.step s (.srvPrepare f r)).isSome = true) ∨
+    (fl.spawned = true ∧ fl.ans ≠ none ∧ (PConn.step s (.complete f)).isSome = true) := by
+  obtain ⟨_, _, hI, _⟩ := reachable h
+  cases hsp : fl.spawned with
+  | false =>
+    obtain ⟨g, gl, hg, hgp⟩ := hI.unspawned f fl hf hsp
+    exact Or.inl ⟨rfl, g, gl, hg, hgp, by simp [PConn.step, hg, hgp, hf]⟩
+  | true =>
+    cases ha : fl.ans with
+    | none =>
+      exact Or.inr (Or.inl ⟨rfl, rfl, fun r => by simp [PConn.step, hf, ha, hsp]⟩)
+    | some r =>
+      refine Or.inr (Or.inr ⟨rfl, by simp, ?_⟩)
+      simp only [PConn.step, hf, ha, hd]
+      cases r <;> rfl
+
+/-- **With a cache that never purges for capacity, an entry leaves the cache only because its PREPARE failed or the
+    server lost the statement.** In every schedule of the machine without capacity evictions (MaxPreparedStmts 0, or
+    at least the number of distinct keys), whenever flight f's entry of key k leaves the cache: the server had
+    answered PREPARE f of k with an error; or it had answered it PREPARED (id, n) and a call c that was started with
+    an entry of k has received an UNPREPARED answer carrying exactly that id. In particular no entry is ever removed
+    because some caller's context is done, nor while its PREPARE is still on its way — so, with
+    `C14_single_flight_conn`, #PREPARE(k) ≤ 1 + #failed PREPAREs(k) + #UNPREPARED-evictions(k). -/
+theorem C14_removal_justified (as : List (PConn.Action κ)) (s : PConn.State κ) (pre post : List (Ev κ)) (k : κ) (f : Nat)
+    (h : PConn.run (PConn.initB true) as = some (s, pre ++ Ev.rm k f :: post)) :
+    Ev.prep f k none ∈ pre ∨
+    ∃ id n c ids bt es, Ev.prep f k (some (id, n)) ∈ pre ∧ Ev.exec c ids (.unprep id) ∈ pre ∧
+      Ev.start c bt es ∈ pre ∧ hasKey es k = true := by
+  obtain ⟨o1, o2, h1, hH, hs⟩ := before_event h
+  have hst : o1.strict = true := obs_run_strict pre _ o1 h1
+  simp only [Obs.step] at hs
+  by_cases hj : o1.strict = true ∧ justified o1 k f = false
+  · rw [if_pos hj] at hs; cases hs
+  rw [if_neg hj] at hs
+  have hjt : justified o1 k f = true := by
+    cases hx : justified o1 k f with
+    | true => rfl
+    | false => exact absurd ⟨hst, hx⟩ hj
+  unfold justified at hjt
+  cases hf : o1.flights f with
+  | none => simp [hf] at hjt
+  | some fl =>
+    simp only [hf] at hjt hs
+    have hk : fl.key = k := by
+      by_cases hq : fl.key = k ∧ fl.removed = false
+      · exact hq.1
+      · rw [if_neg hq] at hs; cases hs
+    cases ha : fl.ans with
+    | none => simp [ha] at hjt
+    | some r =>
+      cases r with
+      | none =>
+        left
+        have := hH.prep f fl none hf ha
+        rw [hk] at this; exact this
+      | some p =>
+        obtain ⟨id, n⟩ := p
+        right
+        simp only [ha] at hjt
+        obtain ⟨cl, hmem, hcl⟩ := List.any_eq_true.1 hjt
+        simp only [Bool.and_eq_true, decide_eq_true_eq] at hcl
+        obtain ⟨c, hc⟩ := List.getElem?_of_mem hmem
+        obtain ⟨ids, hx⟩ := hH.await c cl _ hc hcl.1
+        obtain ⟨bt, hb⟩ := hH.start c cl hc
+        have hp := hH.prep f fl _ hf ha
+        rw [hk] at hp
+        exact ⟨id, n, c, ids, bt, cl.entries, hp, hx, hb, hcl.2⟩
+
+/-- **Every flight is completed by its own agents.** From every reachable state of every schedule and for every
+    flight (cached or not): at most three further steps — the publishing caller starting the goroutine, the server
+    receiving the PREPARE, the goroutine completing the flight; no step of any other caller, and no caller's context
+    needs to be live — make it done, with an answer recorded. By `C14_no_orphan_flight` each of these steps is enabled
+    whenever it is the next one, in whatever order the rest of the system moves. -/
+theorem C14_flight_completes (as : List (PConn.Action κ)) (s : PConn.State κ) (tr : List (Ev κ))
+    (h : PConn.run (PConn.initB b) as = some (s, tr)) (f : Nat) (fl : PConn.Flight κ) (hf : s.flights[f]? = some fl) :
+    ∃ (as' : List (PConn.Action κ)) (s' : PConn.State κ) (tr' : List (Ev κ)) (fl' : PConn.Flight κ),
+      as'.length ≤ 3 ∧ (∀ a ∈ as', Agent f a) ∧ PConn.run s as' = some (s', tr') ∧
+      s'.flights[f]? = some fl' ∧ fl'.done = true ∧ fl'.ans ≠ none := by
+  obtain ⟨_, _, hI, _⟩ := reachable h
+  exact stage1 s hI f fl hf
+
+/-- **Every execution that finds an entry gets its outcome.** From every reachable state in which call c waits for
+    flight f (it found the entry, or published it): after those at most three steps of the flight's agents — which
+    leave c where it is — c's own next action is enabled: it reads the finished flight (the PREPARE's failure, the
+    value-count error, or it goes on to its next entry / sends its frame). Together with `C14_no_orphan_flight`:
+    no execution waits for ever behind an entry, whatever happened to the context of the caller that published it. -/
+theorem C14_waiter_gets_outcome (as : List (PConn.Action κ)) (s : PConn.State κ) (tr : List (Ev κ))
+    (h : PConn.run (PConn.initB b) as = some (s, tr)) (c f : Nat) (cl : Caller κ) (hc : s.callers[c]? = some cl)
+    (hpc : cl.pc = .waiting f) :
+    ∃ (as' : List (PConn.Action κ)) (s' : PConn.State κ) (tr' : List (Ev κ)),
+      as'.length ≤ 3 ∧ (∀ a ∈ as', Agent f a) ∧ PConn.run s as' = some (s', tr') ∧
+      s'.callers[c]? = some cl ∧ (PConn.step s' (.observe c .ok)).isSome = true := by
+  obtain ⟨_, _, hI, _⟩ := reachable h
+  have hpcs := (hI.callers c cl hc).pcs
+  rw [hpc] at hpcs
+  obtain ⟨_, _, fl, e, hf, he, _, _⟩ := hpcs
+  obtain ⟨as', s', tr', fl', g1, g2, g3, g4, g5, g6⟩ := stage1 s hI f fl hf
+  have hc' := agents_keep_waiter hpc as' s s' tr' g2 g3 hc
+  refine ⟨as', s', tr', g1, g2, g3, hc', ?_⟩
+  simp only [PConn.step, hc', hpc, g4, he, g5, if_true]
+  cases ha : fl'.ans with
+  | none => exact absurd ha g6
+  | some r =>
+    cases r with
+    | none => rfl
+    | some p =>
+      obtain ⟨id, nc⟩ := p
+      simp only []
+      split
+      · rfl
+      · split <;> rfl
+
+/-- the caller that published a flight cannot leave `prepareStatement` before it has started the flight's
+    goroutine: with pc `won` neither the context-error returns nor any other action of that caller is enabled,
+    only `spawn` — whether or not its context is done -/
+theorem C14_winner_cannot_leave (s : PConn.State κ) (c f : Nat) (cl : Caller κ) (a : XAns)
+    (hc : s.callers[c]? = some cl) (hpc : cl.pc = .won f) :
+    PConn.step s (.abandon c) = none ∧ PConn.step s (.abandonLate c) = none ∧ PConn.step s (.lookup c) = none ∧
+    PConn.step s (.observe c a) = none ∧ PConn.step s (.finish c) = none ∧ PConn.step s (.srvLate c a) = none := by
+  refine ⟨?_, ?_, ?_, ?_, ?_, ?_⟩ <;> simp [PConn.step, hc, hpc]
+
+/-- **A caller whose context is done can return its context error** wherever the code selects on `ctx.Done()`
+    (waiting for a flight; waiting for the answer to its frame) — and doing so touches neither the cache nor any
+    flight: what it leaves behind is owned as before (`C14_no_orphan_flight` holds in the state after). -/
+theorem C14_cancelled_can_return (s : PConn.State κ) (c : Nat) (cl : Caller κ)
+    (hc : s.callers[c]? = some cl) (hcan : s.cancelled c = true)
+    (hpc : (∃ f, cl.pc = .waiting f) ∨ (∃ a, cl.pc = .answered a)) :
+    ∃ s', PConn.step s (.abandon c) = some (s', [Ev.ret c .ctxErr]) ∧ s'.cache = s.cache ∧ s'.flights = s.flights := by
+  rcases hpc with ⟨f, hpc⟩ | ⟨a, hpc⟩ <;>
+    exact ⟨{ s with callers := s.callers.set c { cl with pc := .abandoned } },
+      by simp only [PConn.step, hc, hcan, hpc, if_true], rfl, rfl⟩
 
 /-! non-vacuity: concrete schedules -/
 
 /-- two executions of one uncached statement, one PREPARE, both execute with its id -/
 example :
     (PConn.run (PConn.init : PConn.State Nat)
-      [.call false [(7, 1)], .call false [(7, 1)], .lookup 0, .lookup 1, .srvPrepare 0 (some ([0xAA], 1)), .complete 0,
+      [.call false [(7, 1)], .call false [(7, 1)], .lookup 0, .lookup 1, .spawn 0, .srvPrepare 0 (some ([0xAA], 1)), .complete 0,
        .observe 1 .ok, .observe 0 .ok, .finish 0, .finish 1]).map (·.2) =
     some [.start 0 false [(7, 1)], .start 1 false [(7, 1)], .prep 0 7 (some ([0xAA], 1)), .exec 1 [[0xAA]] .ok,
           .exec 0 [[0xAA]] .ok, .ret 0 .ok, .ret 1 .ok] := by decide
@@ -491,9 +694,9 @@ example :
     waiters after its entry left the cache; a wrong value count sends nothing -/
 example :
     (PConn.run (PConn.init : PConn.State Nat)
-      [.call false [(7, 1)], .lookup 0, .srvPrepare 0 (some ([0xAA], 1)), .complete 0, .observe 0 (.unprep [0xAA]), .finish 0,
-       .lookup 0, .call false [(7, 1)], .lookup 1, .srvPrepare 1 none, .complete 1, .observe 0 .ok, .observe 1 .ok,
-       .call false [(7, 2)], .lookup 2, .srvPrepare 2 (some ([0xAB], 1)), .complete 2, .observe 2 .ok]).map (·.2) =
+      [.call false [(7, 1)], .lookup 0, .spawn 0, .srvPrepare 0 (some ([0xAA], 1)), .complete 0, .observe 0 (.unprep [0xAA]), .finish 0,
+       .lookup 0, .spawn 0, .call false [(7, 1)], .lookup 1, .srvPrepare 1 none, .complete 1, .observe 0 .ok, .observe 1 .ok,
+       .call false [(7, 2)], .lookup 2, .spawn 2, .srvPrepare 2 (some ([0xAB], 1)), .complete 2, .observe 2 .ok]).map (·.2) =
     some [.start 0 false [(7, 1)], .prep 0 7 (some ([0xAA], 1)), .exec 0 [[0xAA]] (.unprep [0xAA]), .rm 7 0,
           .start 1 false [(7, 1)], .prep 1 7 none, .rm 7 1, .ret 0 (.prepErr 1), .ret 1 (.prepErr 1),
           .start 2 false [(7, 2)], .prep 2 7 (some ([0xAB], 1)), .ret 2 .countErr] := by decide
@@ -510,6 +713,61 @@ example : (Obs.run (Obs.init : OState Nat) [.start 0 false [(7, 1)], .start 1 fa
 example : (Obs.run (Obs.init : OState Nat) [.start 0 false [(7, 1)], .start 1 false [(8, 1)], .prep 0 7 (some ([1], 1)),
     .prep 1 8 (some ([2], 1)), .exec 0 [[2]] .ok]).isNone = true := by decide
 example : (Obs.run (Obs.init : OState Nat) [.start 0 false [(7, 2)], .prep 0 7 (some ([1], 1)), .exec 0 [[1]] .ok]).isNone = true := by decide
+
+/-! caller contexts -/
+
+/-- the winner's context is done before it even looks the statement up: it publishes the flight, starts the
+    goroutine, returns its context error; the PREPARE reaches the server after that; a later execution with a live
+    context finds the entry and executes with the id — one PREPARE, nobody stuck -/
+example :
+    (PConn.run (PConn.init : PConn.State Nat)
+      [.call false [(7, 1)], .cancel 0, .lookup 0, .spawn 0, .abandon 0, .call false [(7, 1)], .lookup 1,
+       .srvPrepare 0 (some ([0xAA], 1)), .complete 0, .observe 1 .ok, .finish 1]).map (·.2) =
+    some [.start 0 false [(7, 1)], .cancel 0, .ret 0 .ctxErr, .start 1 false [(7, 1)], .prep 0 7 (some ([0xAA], 1)),
+          .exec 1 [[0xAA]] .ok, .ret 1 .ok] := by decide
+
+/-- a caller at pc `won` cannot return: the schedule in which the cancelled winner gives up BEFORE starting the
+    goroutine (the behaviour of an early `ctx.Err()` return placed after `execIfMissing`) is not a schedule -/
+example :
+    (PConn.run (PConn.init : PConn.State Nat) [.call false [(7, 1)], .cancel 0, .lookup 0, .abandon 0]).isNone = true := by decide
+
+/-- a waiter whose context fires while the PREPARE is at the server returns its context error; the winner and a
+    later caller are served; the frame a cancelled caller had just written arrives after its return -/
+example :
+    (PConn.run (PConn.init : PConn.State Nat)
+      [.call false [(7, 1)], .lookup 0, .spawn 0, .call false [(7, 1)], .lookup 1, .cancel 1, .abandon 1,
+       .srvPrepare 0 (some ([0xAA], 1)), .complete 0, .cancel 0, .abandonLate 0, .srvLate 0 .ok]).map (·.2) =
+    some [.start 0 false [(7, 1)], .start 1 false [(7, 1)], .cancel 1, .ret 1 .ctxErr, .prep 0 7 (some ([0xAA], 1)),
+          .cancel 0, .ret 0 .ctxErr, .exec 0 [[0xAA]] .ok] := by decide
+
+/-- the specification rejects: a context error to a call whose context is live (e.g. the PREPARE run on the
+    winner's context and its failure handed to the waiters); the history an orphaned entry produces (the cancelled
+    winner returns, the next execution never does); a second late frame; a frame after a result -/
+example : (Obs.run (Obs.init : OState Nat) [.start 0 false [(7, 1)], .start 1 false [(7, 1)], .cancel 0, .ret 0 .ctxErr,
+    .ret 1 .ctxErr]).isNone = true := by decide
+example : (Obs.run (Obs.init : OState Nat) [.start 0 false [(7, 1)], .cancel 0, .ret 0 .ctxErr, .start 1 false [(7, 1)],
+    .hang 1]).isNone = true := by decide
+example : (Obs.run (Obs.init : OState Nat) [.start 0 false [(7, 1)], .prep 0 7 (some ([1], 1)), .cancel 0, .ret 0 .ctxErr,
+    .exec 0 [[1]] .ok, .exec 0 [[1]] .ok]).isNone = true := by decide
+example : (Obs.run (Obs.init : OState Nat) [.start 0 false [(7, 1)], .prep 0 7 (some ([1], 1)), .exec 0 [[1]] .ok, .ret 0 .ok,
+    .exec 0 [[1]] .ok]).isNone = true := by decide
+/-- … and accepts the PREPARE that arrives after the cancelled winner has returned -/
+example : (Obs.run (Obs.init : OState Nat) [.start 0 false [(7, 1)], .cancel 0, .ret 0 .ctxErr,
+    .prep 0 7 (some ([1], 1))]).isSome = true := by decide
+
+/-- a cache that never purges: the entry of a flight whose PREPARE is still on its way cannot leave the cache — the
+    history in which a cancelled caller "cleans up" the in-flight entry (and the next execution prepares again) is
+    rejected by the strict specification, accepted by the lax one (where it could have been a capacity eviction) -/
+example : (Obs.run (Obs.initB true : OState Nat) [.start 0 false [(7, 1)], .start 1 false [(7, 1)], .cancel 1, .rm 7 0]).isNone = true := by decide
+example : (Obs.run (Obs.initB true : OState Nat) [.start 0 false [(7, 1)], .prep 0 7 (some ([1], 1)), .start 1 false [(7, 1)], .cancel 1,
+    .rm 7 0, .ret 1 .ctxErr]).isNone = true := by decide
+example : (Obs.run (Obs.initB false : OState Nat) [.start 0 false [(7, 1)], .prep 0 7 (some ([1], 1)), .start 1 false [(7, 1)], .cancel 1,
+    .rm 7 0, .ret 1 .ctxErr]).isSome = true := by decide
+/-- … and it accepts the two legitimate removals: the failed PREPARE, the UNPREPARED answer with the cached id -/
+example : (Obs.run (Obs.initB true : OState Nat) [.start 0 false [(7, 1)], .prep 0 7 none, .rm 7 0, .ret 0 (.prepErr 0),
+    .start 1 false [(7, 1)], .prep 1 7 (some ([1], 1)), .exec 1 [[1]] (.unprep [1]), .rm 7 1]).isSome = true := by decide
+/-- the strict machine has no capacity eviction -/
+example : (PConn.run (PConn.initB true : PConn.State Nat) [.call false [(7, 1)], .lookup 0, .evict 7]).isNone = true := by decide
 
 end Conn
 
